@@ -54,6 +54,37 @@ structure Bnd (s : St) : Prop where
   po5  : ∀ t x, s.opc = .po5 t x → 0 ≤ t ∧ t < s.size
   po5b : ∀ t r, s.opc = .po5b t r → 0 ≤ t ∧ t < s.size
 
+section FastTactics
+open Lean Elab Tactic Meta
+
+/-- add the global clauses of `hb : Bnd s` to the context -/
+elab "bnd_core " h:ident : tactic => withMainContext do
+  let hExpr ← elabTerm h none
+  let mut g ← getMainGoal
+  for f in [`sz, `lb0, `lts, `lbv, `ltv, `base0, `tops] do
+    let pf ← mkAppM (``Bnd ++ f) #[hExpr]
+    let ty ← inferType pf
+    let g' ← g.assert (Name.mkSimple ("hb_" ++ f.toString)) ty pf
+    let (_, g'') ← g'.intro1P
+    g := g''
+  replaceMainGoal [g]
+
+/-- on a goal produced by `constructor` on `Bnd s'`: add the old clause `hb.F` as the newest hypothesis -/
+elab "bnd_pick " h:ident : tactic => withMainContext do
+  let g ← getMainGoal
+  let tag ← g.getTag
+  let fld := match tag with
+    | .str _ s => Name.mkSimple s
+    | _ => Name.anonymous
+  let hExpr ← elabTerm h none
+  let pf ← mkAppM (``Bnd ++ fld) #[hExpr]
+  let ty ← inferType pf
+  let g' ← g.assert `hold ty pf
+  let (_, g'') ← g'.intro1
+  replaceMainGoal [g'']
+
+end FastTactics
+
 theorem init_bnd (n : Int) (hn : 0 ≤ n) : Bnd (init FenceCfg.code n) := by
   constructor
   all_goals simp [init]
